@@ -4,6 +4,7 @@ package tx
 import (
 	"bytes"
 	"encoding/json"
+	"reflect"
 	"sync"
 
 	"gjvharness/verif"
@@ -43,5 +44,25 @@ func HarnessRawReuse() {
 	m = m[:0]
 	json.Unmarshal([]byte(`["second",2]`), &m)
 	verif.Assert(string(held) == `["first-call",1111]`, "held-intact")
+	verif.Reach("done")
+}
+
+// HarnessReflectSelectNil: reflect.Select on a nil channel never chooses that case.
+func HarnessReflectSelectNil() {
+	var in chan int
+	done := make(chan struct{})
+	got := -1
+	go func() {
+		cases := []reflect.SelectCase{
+			{Dir: reflect.SelectRecv, Chan: reflect.ValueOf(done)},
+			{Dir: reflect.SelectRecv, Chan: reflect.ValueOf(in)},
+		}
+		got, _, _ = reflect.Select(cases)
+	}()
+	verif.Quiesce()
+	verif.Assert(got == -1, "select-on-nil-channel-blocks")
+	close(done)
+	verif.Quiesce()
+	verif.Assert(got == 0, "done-chosen")
 	verif.Reach("done")
 }
